@@ -763,7 +763,7 @@ fn main() {
          frame list compared with the Lean model fed the abstract condition; non-trivial = damaged or crash-left file; \
          distinct = shape + damage + options");
     sum.expect_branches(&["crash-left-pending", "fault-hdr-ptr", "fault-hdr-tocsum", "fault-toc-sum", "fault-footer-magic", "fault-footer-hash",
-        "fault-index-time", "fault-index-vec", "dry-run", "vacuum", "forced-rebuild", "status-healed", "status-clean", "oracle-held"]);
+        "fault-index-time", "fault-index-lex", "fault-index-vec", "dry-run", "vacuum", "forced-rebuild", "status-healed", "status-clean", "oracle-held"]);
     let dir = scratch();
     if args.mode == "replay" {
         let case = load_replay(args.replay_file.as_ref().expect("replay file"));
